@@ -265,15 +265,25 @@ func kvWrite(vc *VC, st *State, c *ssa.CallCommon, args []Value, exp *Term) Valu
 		// the ledger total: sum of Credit over the live balance and trial entries
 		wasLive := And(Select(has, key, sortBool), Or(Eq(Select(ex, key, sortInt), IntLit(0)), Bin(sortBool, "<", st.clock, Select(ex, key, sortInt))))
 		oldC := Ite(wasLive, vc.balanceCredit(Select(h, key, s), s), IntLit(0))
-		sum := vc.kvSum(st)
+		sums := vc.kvSums(st)
+		ks := App(sortInt, "keyspace", key)
 		delta := Bin(sortInt, "-", vc.balanceCredit(v, s), oldC)
-		vc.setHeap(st, "KVsum", Ite(And(ok, vc.isLedgerKey(key)), Bin(sortInt, "+", sum, delta), sum))
+		vc.setHeap(st, "KVsum", Ite(And(ok, vc.isLedgerKey(key)), Store(sums, ks, Bin(sortInt, "+", Select(sums, ks, sortInt), delta)), sums))
 	}
 	vc.setHeap(st, name, Ite(ok, Store(h, key, v), h))
 	return err
 }
 
-func (vc *VC) kvSum(st *State) *Term { return vc.heap(st, "KVsum", sortInt) }
+// kvSums: per key space, the sum of Credit over its live entries (maintained for the two ledger key spaces)
+func (vc *VC) kvSums(st *State) *Term {
+	return vc.heap(st, "KVsum", vc.eng.st.ArrayOf(sortInt, sortInt))
+}
+
+// kvSum: the ledger total
+func (vc *VC) kvSum(st *State) *Term {
+	s := vc.kvSums(st)
+	return Bin(sortInt, "+", Select(s, IntLit(int64(vc.eng.keyPrefixID("vip:balance:"))), sortInt), Select(s, IntLit(int64(vc.eng.keyPrefixID("vip:trial:"))), sortInt))
+}
 
 // isLedgerKey: the key belongs to one of the two key spaces whose Credit fields make up the ledger total.
 func (vc *VC) isLedgerKey(key *Term) *Term {
@@ -320,9 +330,10 @@ func init() {
 			if bt := vc.eng.balanceType(); bt != nil {
 				s := vc.eng.st.SortOf(bt)
 				_, h := vc.kvVal(st, s)
-				sum := vc.kvSum(st)
+				sums := vc.kvSums(st)
+				ks := App(sortInt, "keyspace", key)
 				gone := And(ok, vc.isLedgerKey(key), vc.kvLive(st, key))
-				vc.setHeap(st, "KVsum", Ite(gone, Bin(sortInt, "-", sum, vc.balanceCredit(Select(h, key, s), s)), sum))
+				vc.setHeap(st, "KVsum", Ite(gone, Store(sums, ks, Bin(sortInt, "-", Select(sums, ks, sortInt), vc.balanceCredit(Select(h, key, s), s))), sums))
 			}
 			vc.setHeap(st, "KVhas", Ite(ok, Store(has, key, tFalse), has))
 			return err
